@@ -1,6 +1,6 @@
 package main
 
-// C06 — regenerates the XML entity tables of /repo/xml/table.go (`EntitiesMap`, `TextRevEntitiesMap`)
+// C06 — regenerates the XML entity tables of /repo/xml/table.go (`EntitiesMap`, `TextRevEntitiesMap`, `AttrRevEntitiesMap`)
 // as explicit character lists in lean/Verif/Gen/XmlTables.lean.  The generator knows nothing about what
 // the tables should contain; theorems in Props/C06.lean about the tables (`entities_sound`,
 // `textRev_sound`) are re-checked by the Lean kernel against what the source says now.
@@ -106,6 +106,10 @@ func init() {
 		if err != nil {
 			return "", err
 		}
+		arev, err := read("AttrRevEntitiesMap", token.CHAR)
+		if err != nil {
+			return "", err
+		}
 		var b strings.Builder
 		b.WriteString(header("XmlTables", "xml/table.go"))
 		b.WriteString("/-- `xml.EntitiesMap`: entity name ↦ replacement bytes (sorted by name) -/\n")
@@ -123,6 +127,16 @@ func init() {
 		for i, e := range rev {
 			sep := ","
 			if i == len(rev)-1 {
+				sep = ""
+			}
+			fmt.Fprintf(&b, "  (Char.ofNat %d, %s)%s -- %q -> %q\n", e.k[0], c06CharList(e.v), sep, e.k, e.v)
+		}
+		b.WriteString("]\n\n")
+		b.WriteString("/-- `xml.AttrRevEntitiesMap`: byte ↦ escape used in attribute values (sorted by byte) -/\n")
+		b.WriteString("def attrRev : List (Char × List Char) := [\n")
+		for i, e := range arev {
+			sep := ","
+			if i == len(arev)-1 {
 				sep = ""
 			}
 			fmt.Fprintf(&b, "  (Char.ofNat %d, %s)%s -- %q -> %q\n", e.k[0], c06CharList(e.v), sep, e.k, e.v)
